@@ -16,7 +16,9 @@ namespace nmtools::index
         
         auto result = result_t {};
 
-        result = ((float)stop - (float)start) / (endpoint ? num - 1 : num);
+        auto divisor = (endpoint ? num - 1 : num);
+        // a single sample is the start itself: no step to take (avoid 0/0)
+        result = (divisor > 0 ? ((float)stop - (float)start) / divisor : 0);
 
         return result;
     }
